@@ -324,6 +324,24 @@ fn run_many(out: &mut WorkerOut) {
             }
         }
     };
+    // descriptors registered BEFORE the operators they are for exist
+    {
+        use expression_engine::{InfixOpAssociativity, InfixOpType};
+        let mut m = DescriptorManager::new();
+        m.set_unary_descriptor("neg2".to_string(), Arc::new(|op, rhs| format!("<U:{}|{}>", op, rhs)));
+        m.set_binary_descriptor("plus2".to_string(), Arc::new(|op, l, r| format!("<B:{}|{}|{}>", op, l, r)));
+        m.set_postfix_descriptor("pf2".to_string(), Arc::new(|lhs, op| format!("<P:{}|{}>", op, lhs)));
+        expression_engine::register_prefix_op("neg2", Arc::new(|v| Ok(v)));
+        expression_engine::register_infix_op("plus2", 110, InfixOpType::CALC, InfixOpAssociativity::LEFT, Arc::new(|a, _| Ok(a)));
+        expression_engine::register_postfix_op("pf2", Arc::new(|v| Ok(v)));
+        for (text, want) in [("neg2 5", "<U:neg2|5>"), ("1 plus2 2", "<B:plus2|1|2>"), ("7 pf2", "<P:pf2|7>"), ("neg2 1 plus2 2 pf2", "<B:plus2|<U:neg2|1>|<P:pf2|2>>")] {
+            out.evals += 1;
+            let got = guarded(|| parse_expression(text).map(|t| t.describe()).map_err(|e| format!("{:?}", e)));
+            if got != Res::Ok(want.to_string()) {
+                out.fail("describe:descriptor-registered-before-its-operator", format!("many|descriptor first, operator second: {:?}", text), format!("expected {:?} got {:?}", want, got));
+            }
+        }
+    }
     check(&refs, &funs, "nothing registered", out);
     for gen in [1u8, 2] {
         for k in 0..2 * N {
@@ -479,6 +497,23 @@ fn check_config_installed(cfg: u32, progs: &[String], stage: &str, out: &mut Wor
             let t = parse_expression(p).map_err(|e| format!("parse: {:?}", e))?;
             let ast = conv(&t);
             let d = guarded(|| Ok(t.describe()));
+            // nodes taken out of a parsed tree and re-assembled by hand are nodes too: every
+            // statement of a chain alone, and wrapped in a one-element chain
+            if let expression_engine::ExprAST::Stmt(items) = &t {
+                if let (Ast::Stmt(mitems), Res::Ok(_)) = (&ast, &d) {
+                    for (e, m) in items.iter().zip(mitems) {
+                        for (built, want) in [
+                            (e.clone(), describe(m, cfg)),
+                            (expression_engine::ExprAST::Stmt(vec![e.clone()]), describe(&Ast::Stmt(vec![m.clone()]), cfg)),
+                        ] {
+                            let got = guarded(|| Ok(built.describe()));
+                            if got != Res::Ok(want.clone()) {
+                                return Err(format!("hand-built: {:?} describes as {:?}, expected {:?}", conv(&built), got, want));
+                            }
+                        }
+                    }
+                }
+            }
             Ok((ast, d))
         });
         let case = format!("{}|config={:#06x} program={}", stage, cfg, show(p));
@@ -499,6 +534,10 @@ fn check_config_installed(cfg: u32, progs: &[String], stage: &str, out: &mut Wor
                 return;
             }
             Res::Ok((_, Res::Err(_))) => {}
+            Res::Err(e) if e.starts_with("hand-built:") => {
+                out.fail("describe:wrong-rendering:hand-built-chain", case, e);
+                return;
+            }
             Res::Err(e) => {
                 out.fail("generator:program-rejected", case, e);
                 return;
